@@ -1,9 +1,11 @@
 (* C05 -- witnesses: (1) the text of a cached error can change after its error_update was sent (finding
    C05/error-text-changes-after-announce); (2) without the update lock the stream and the cache diverge;
-   (3) without each of the three shapes of handle_activate / broadcast_event the multi-thread clause fails. *)
+   (3) without each of the three shapes of handle_activate / broadcast_event the multi-thread clause fails;
+   (4) with a narrower except clause around the parameter callbacks a raising callback costs the connections the
+   update of a change the cache has already made. *)
 From Coq Require Import ZArith NArith Bool List Arith.
 Import ListNotations.
-Require Import FV.Base.Util FV.Base.F64 FV.Base.PyVal FV.C01.Model FV.Gen.C05 FV.C05.Model FV.C05.Lemmas.
+Require Import FV.Base.Util FV.Base.F64 FV.Base.PyVal FV.C01.Model FV.Gen.C05 FV.C05.Model FV.C05.ModelCb FV.C05.Lemmas.
 
 Definition wP : pcfg :=
   {| p_mod := 0; p_mname := [109%N]; p_name := [112%N]; p_export := Some [95%N; 112%N];
@@ -130,3 +132,37 @@ Example with_private_copy :
 Proof. vm_compute. reflexivity. Qed.
 Example with_facts_late_reg' : cs_ok (crun aG flags_ok (cinit aS (subs0 aG) a_progs) a_sched_late_reg) = false.
 Proof. vm_compute. reflexivity. Qed.
+
+(* ------------------------------------------------------------------ (4) parameter callbacks.
+   One parameter, one connection activated for the whole node, one callback registered on the parameter (a follower
+   computing reference / value) which raises ZeroDivisionError when the parameter is assigned.  With
+   "except TypeError:" in place of "except Exception:" the exception leaves the callback loop: the cache holds the new
+   value and its time, the connection still holds the initial one. *)
+Definition s_zerodiv : str :=
+  [90%N;101%N;114%N;111%N;68%N;105%N;118%N;105%N;115%N;105%N;111%N;110%N;69%N;114%N;114%N;111%N;114%N].
+Definition w_cb_op : op * cbs :=
+  ({| o_p := 0; o_k := KAssign (PFloat (fmk 1 0)); o_dt := 1; o_cx := wcx |}, CRaise false s_zerodiv CNil).
+
+Theorem C05_refuted_callback_exception_escapes :
+  exists G s oc k p c m,
+    let s' := step_cb G s_typeerror s oc in
+    nth_error (g_conns G) k = Some SAll /\ covers G SAll p = true /\
+    nth_error (s_cells s') p = Some c /\ replay p (msgs_of k s') = Some m /\
+    m_ts m <> c_ts c.
+Proof.
+  exists wG, wS, w_cb_op, 0, 0. eexists; eexists. cbv zeta.
+  repeat split; try (vm_compute; reflexivity). vm_compute. discriminate.
+Qed.
+(* with "except Exception:" the same operation sends the update; so does a callback raising TypeError under the
+   narrower clause (which is why the pinned tests do not notice the difference) *)
+Example with_except_exception :
+  let s' := step_cb wG s_exception wS w_cb_op in
+  match nth_error (s_cells s') 0, replay 0 (msgs_of 0 s') with
+  | Some c, Some m => Z.eqb (m_ts m) (c_ts c) && Z.eqb (c_ts c) 8001
+  | _, _ => false
+  end = true.
+Proof. vm_compute. reflexivity. Qed.
+Example typeerror_is_caught_either_way :
+  length (msgs_of 0 (step_cb wG s_typeerror wS (fst w_cb_op, CRaise false s_typeerror CNil))) = 2 /\
+  length (msgs_of 0 (step_cb wG s_typeerror wS w_cb_op)) = 1.
+Proof. vm_compute. split; reflexivity. Qed.
